@@ -9,7 +9,7 @@ tmp=$(mktemp -d)
 one() { # <id> <diff>
   id=$1; d=$2
   name=$(basename "$d"); case "$d" in seeded/*) name="$d";; esac
-  res=$(./tools/detect.sh "$id" "$d" 2>&1 | grep -E "^(DETECTED|NOT DETECTED)|^  key=" | sort -u | head -6 | tr '\n' ' ')
+  res=$(./tools/detect.sh "$id" "$d" 2>&1 | grep -E "^(DETECTED|NOT DETECTED)|^  key=" | sort -u | awk '/DETECTED/{v=$0;next}{if(n<5){k=k" "$0;n++}}END{print k" "v}' | tr '\n' ' ')
   echo "| $id | $name | $res |"
 }
 export -f one
